@@ -316,6 +316,23 @@ func TestVerifState(t *testing.T) {
 					}
 				}
 			}
+			// an interface is renamed while a State has been reading it: the old name is gone; asking for it is an error
+			// (the caller re-dials), never the value it had when it was last seen
+			if ip("link", "add", "verifrn", "type", "veth", "peer", "name", "verifrp") == nil {
+				strn := NewState()
+				_ = os.WriteFile("/proc/sys/net/ipv6/conf/verifrn/forwarding", []byte("1"), 0o644)
+				if on, err := strn.IPv6Forwarding("verifrn"); err == nil && on {
+					if ip("link", "set", "verifrn", "name", "verifrx") == nil {
+						_ = os.WriteFile("/proc/sys/net/ipv6/conf/verifrx/forwarding", []byte("0"), 0o644)
+						if got, err := strn.IPv6Forwarding("verifrn"); err == nil {
+							bad = append(bad, fmt.Sprintf("the interface was renamed and its forwarding switched off; IPv6Forwarding under the old name answers %v without an error", got))
+						}
+						if got, err := strn.IPv6Autoconf("verifrn"); err == nil {
+							bad = append(bad, fmt.Sprintf("the interface was renamed; IPv6Autoconf under the old name answers %v without an error", got))
+						}
+					}
+				}
+			}
 			res <- strings.Join(bad, "; ")
 		}()
 		r := <-res
